@@ -7,6 +7,18 @@ ALL = ["C%02d" % i for i in range(1, 21)]
 
 # id -> (technique, level text, level note, design section)
 CLAIMED = {
+ "C10": ("stateful property-based testing with a union request machine (commitments on both sides, payments, on-chain, allowlist, tracker blocks, channel lifecycle) biased to refusable requests, on a plain and on a cloud-staged store; oracle = full observation (all channels' enforcement state, node bookkeeping, tracker entry, store dump, pending mutations) is identical before and after every refused request",
+         "Held-on-N-histories exploration; two genuine defects (revocation secret stored before refusal, allowlist partially applied) were repaired by fix: commits.",
+         "Storage backend failures not generated; API-level requests with the handler's persist envelope, wire-protocol handlers not driven.",
+         "C10"),
+ "C11": ("stateful property-based testing with crash injection after every request: a twin signer is restored from a copy of the store alone and compared field by field with the running signer on the items the property lists",
+         "Held-on-N-histories exploration (about 50k restores per quick run); the genuine defect found (forget flag not durable) was repaired by a fix: commit.",
+         "Twin restored through the in-memory KVV store (redb reopen: C16); cloud store twin is restored from the committed local store.",
+         "C11"),
+ "C14": ("stateful property-based testing of channel monitors: generated transaction pools grouped into blocks, connect/disconnect histories with reorgs, compact and streamed delivery, driven both directly on ChainListener and through the real ChainTracker; oracle = differential against a fresh signer that connected only the surviving best chain, connect-disconnect identity, no abort",
+         "Held-on-N-histories exploration; four genuine defects (forward-order undo, inverted watch changes, abort on revoked commitment, streamed removal always refused) were repaired by fix: commits.",
+         "Regtest only for tracker-level runs; HTLC/second-level spends carry synthetic scripts (the monitor looks at outpoints only); chains up to 40 blocks.",
+         "C14"),
  "C13": ("stateful property-based testing of ChainTracker on regtest with mined headers, constructed proofs and attestation sets; one injected fault per request; oracle = reference chain model (accepted implies no injected fault), snapshot equality after every refusal, a valid request succeeds after a rejection",
          "Held-on-N-histories exploration; the header-pop-before-validation defect was repaired by a fix: commit; the missing abort path for refused streamed blocks is listed as known findings (three signatures, one root cause).",
          "Only regtest proof-of-work can be mined: mainnet/testnet checkpoints get refusal paths only; retarget rule is the x4 band as implemented (no timestamp retargeting).",
